@@ -331,3 +331,26 @@ _also('C18', 'periodicEval, interpreted over scripted predicates: the predicate 
       'finite-domain interpretation of the polling loop')
 _also('C19', 'writes through local non-const references bound to mutable members are followed (a shared mutable scratch buffer in a const '
              'query is reported).')
+
+# ---- round 5 (DESIGN.md R3) ---------------------------------------------------------------------------------------
+def _also3(pid, extra):
+    P[pid]['text'] = P[pid]['text'] + ' Also decided (DESIGN.md R3): ' + extra
+
+
+_also3('C01', 'parallel arrays sized together are indexed together in every loop that writes one of them (5 loops); new elements of the lazy '
+              'roadmap start with unknown validity (6 stores); the extraction-time validation of the lazy planners covers every node (4 loops).')
+_also3('C02', 'the goal-node rule also reads PDST\'s end states.')
+_also3('C03', 'temporaries held in fields of local aggregates and scratch objects are released on every path; an interrupted lazy validation '
+              'never reports the part it did not look at (R03s); a one-argument goal test of the preserved solution measures nothing (R03n).')
+_also3('C04', 'answers of the solution registry are not used across a registration (typestate over 7 functions); the admissible bound of a '
+              'multi-start query folds over all starts (R04p).')
+_also3('C05', 'scratch states are written before they are read (14 functions; parameter constness decides read / write).')
+_also3('C09', 'ScopedState converts to and from reals through one mechanism; extractStateStorage keeps vertex indices and storage slots apart; '
+              'PlannerData::clear() resets every member a mutator writes.')
+_also3('C10', 'the linear structure removes one occurrence per remove().')
+_also3('C12', 'the sibling short-cut of remove() is recognised by its role and its guard is decided by evaluation over every index < size - 1 <= 40.')
+_also3('C13', 'the duplicate branch of components() may swap-and-pop (std::swap form) provided the index steps back.')
+_also3('C14', 'each integration loop drives every segment of the word in order (index sequence evaluated from the loop header).')
+_also3('C15', 'a sampler that overrides the heuristic calls its own override; the direct sampler\'s measure is clamped by the whole space.')
+_also3('C16', 'success of the Newton projection is a positive comparison of a fresh residual norm with the tolerance (NaN-safe).')
+_also3('C20', 'every path of setLocalSeed that reseeds the generator resets every cached distribution.')
